@@ -1,3 +1,278 @@
-/-! C01 model (stub) -/
+/-!
+# C01 — persistent sending queue as a store/memory machine with crash steps
+
+Model of `exporter/exporterhelper/internal/queuebatch/persistent_queue.go` **as repaired** by the two
+`fix:` commits of worktree `/tmp/wt-C01` (atomic move of dispatched items during recovery without
+capacity check; a missing read index next to a stored write index means 0).
+
+* `Store`  = the durable keys `ri`, `wi`, `si`, `di`, `<index>` (abstract of the byte encodings; the
+  codecs are modelled separately in `Model/C01Codec.lean`).
+* `Mem`    = the in-memory fields of `persistentQueue` that matter (`readIndex`, `writeIndex`,
+  `currentlyDispatchedItems`, `queueSize`, `stopped`) plus the ghost `outst` = hand-offs (index,request)
+  whose `Done` callback has not been called yet.
+* `Pc`     = where inside an operation the incarnation is.  **Every firing of a label performs at most one
+  `storage.Client` call** (`calls` counts them), so a `crash` label between two firings is exactly
+  "the process dies at a storage-operation boundary"; `crash` is allowed in every state, also inside
+  `start` (recovery).
+* history variables: `accepted` (request whose put-batch was committed — a superset of "Offer returned
+  nil"), `handed` (requests returned by `Read`), `finalised` (hand-offs whose `Done` was called with a
+  final, i.e. non-shutdown, outcome).
+
+Indexes are `Nat` (the code uses `uint64`; fewer than 2^64 writes is an assumption of the trusted base).
+-/
 namespace OtelVerif.C01
+
+structure Req where
+  id : Nat
+  size : Nat
+deriving DecidableEq, Repr, Inhabited
+
+/-- queue settings: capacity and whether the sizer is `request.RequestsSizer` -/
+structure Conf where
+  cap : Nat := 0
+  reqSized : Bool := true
+deriving Repr
+
+/-- `pq.set.sizer.Sizeof(req)` -/
+def Conf.sizeof (k : Conf) (r : Req) : Nat := if k.reqSized then 1 else r.size
+
+def upd (f : Nat → Option Req) (i : Nat) (v : Option Req) : Nat → Option Req :=
+  fun j => if j = i then v else f j
+
+structure Store where
+  ri : Option Nat := none
+  wi : Option Nat := none
+  si : Option Nat := none
+  /-- decoded `di`; an unset key and an empty array decode to the same `nil` in `bytesToItemIndexArray` -/
+  di : List Nat := []
+  items : Nat → Option Req := fun _ => none
+
+/-- write index that `initPersistentContiguousStorage` loads -/
+def Store.W (s : Store) : Nat := s.wi.getD 0
+/-- read index that `initPersistentContiguousStorage` loads: a missing `wi` resets both to 0,
+    a missing `ri` next to a stored `wi` is 0 (second fix commit) -/
+def Store.R (s : Store) : Nat :=
+  match s.wi with
+  | none => 0
+  | some _ => s.ri.getD 0
+
+/-! the storage calls that write (each is ONE atomic `Batch`/`Set` of the client) -/
+
+/-- `writeInternal`: `Batch(set wi := w+1, set <w> := r)` -/
+def Store.putB (s : Store) (w : Nat) (r : Req) : Store :=
+  { s with wi := some (w + 1), items := upd s.items w (some r) }
+/-- `getNextItem`: `Batch(set ri := ri', set di := cdi, get <ri'-1>)` -/
+def Store.getB (s : Store) (ri' : Nat) (cdi : List Nat) : Store :=
+  { s with ri := some ri', di := cdi }
+/-- `itemDispatchingFinish`: `Batch(set di := cdi, delete <i>)`; also the clean-up batch of recovery for a
+    dispatched index whose item cannot be read: `Batch(delete <i>, set di := cdi)` -/
+def Store.finB (s : Store) (cdi : List Nat) (i : Nat) : Store :=
+  { s with di := cdi, items := upd s.items i none }
+/-- `backupQueueSize`: `Set si` -/
+def Store.setSi (s : Store) (v : Nat) : Store := { s with si := some v }
+/-- recovery (repaired): `Batch(set wi := w+1, set <w> := r, delete <i>, set di := rest)` -/
+def Store.moveB (s : Store) (w : Nat) (r : Req) (i : Nat) (rest : List Nat) : Store :=
+  { s with wi := some (w + 1), items := upd (upd s.items w (some r)) i none, di := rest }
+
+structure Mem where
+  ri : Nat := 0
+  wi : Nat := 0
+  cdi : List Nat := []
+  size : Nat := 0
+  stopped : Bool := false
+  outst : List (Nat × Req) := []
+
+inductive Outcome
+  | final        -- success or any non-shutdown failure
+  | shutdownErr  -- experr.IsShutdownErr
+deriving DecidableEq, Repr
+
+inductive Res
+  | none | offerOk | offerFull | readItem (i : Nat) (r : Req) | readStopped | readEmpty
+  | doneOk | doneUnknown | shutOk
+deriving DecidableEq, Repr
+
+inductive Pc
+  | idle
+  | backup                                          -- next call: `Set si` (tail of putInternal / onDone)
+  | readRet (i : Nat) (r : Req)                     -- getNextItem's batch returned the item; next: return it
+  | readFin (i : Nat)                               -- getNextItem found nothing under i; next call: itemDispatchingFinish
+  | readLoop                                        -- back at the head of Read's inner loop
+  | init1                                           -- indexes loaded; next call: `Get si` (if needed) else `Get di`
+  | init2                                           -- next call: `Get di`
+  | init3 (ds : List Nat)                           -- next call: retrieve batch over ds
+  | moving (todo : List (Nat × Option Req))         -- next call: move batch for the head of todo
+  | movingBackup (todo : List (Nat × Option Req))   -- next call: `Set si` inside writeInternal, then continue
+
+inductive Phase
+  | dead
+  | live (m : Mem) (pc : Pc)
+
+structure Cfg where
+  k : Conf
+  st : Store := {}
+  ph : Phase := .dead
+  accepted : List Req := []
+  handed : List Req := []
+  finalised : List Req := []
+  calls : Nat := 0
+  res : Res := .none
+
+inductive Label
+  | offer (r : Req)
+  | read
+  | done (i : Nat) (oc : Outcome)
+  | shutdown
+  | start
+  | tick
+  | crash
+deriving Repr
+
+/-- `(idx % 10) == m` guard of the periodic `backupQueueSize`, which is a no-op for request-sized queues -/
+def backupDue (k : Conf) (idx m : Nat) : Bool := !k.reqSized && idx % 10 == m
+
+/-- `itemDispatchingFinish`'s removal: overwrite the first occurrence with the last element, drop the last -/
+def swapRemove : List Nat → Nat → List Nat
+  | [], _ => []
+  | [a], x => if a = x then [] else [a]
+  | a :: b :: t, x =>
+    if a = x then (b :: t).getLast (by simp) :: (b :: t).dropLast else a :: swapRemove (b :: t) x
+
+def afterMove (todo : List (Nat × Option Req)) : Pc :=
+  match todo with
+  | [] => .idle
+  | _ :: _ => .moving todo
+
+/-- `Offer` → `putInternal` → `writeInternal` (first storage call) -/
+def doOffer (c : Cfg) (m : Mem) (r : Req) : Cfg :=
+  let sz := c.k.sizeof r
+  if m.size + sz > c.k.cap then { c with res := .offerFull }
+  else
+    let m' := { m with wi := m.wi + 1, size := m.size + sz }
+    { c with calls := c.calls + 1, accepted := r :: c.accepted,
+             st := c.st.putB m.wi r,
+             ph := .live m' (if backupDue c.k (m.wi + 1) 5 then .backup else .idle),
+             res := .offerOk }
+
+/-- head of `Read`'s loop: stopped → false; empty → would block (`readEmpty`); else `getNextItem`'s batch
+    (set `ri`, set `di`, get item).  The `queueSize = 0` resynchronisation is memory-only and applied at once. -/
+def doRead (c : Cfg) (m : Mem) : Cfg :=
+  if m.stopped then { c with ph := .live m .idle, res := .readStopped }
+  else if m.ri = m.wi then { c with ph := .live m .idle, res := .readEmpty }
+  else
+    let cdi := m.cdi ++ [m.ri]
+    let m' := { m with ri := m.ri + 1, cdi := cdi, size := if m.ri + 1 = m.wi then 0 else m.size }
+    { c with calls := c.calls + 1,
+             st := c.st.getB (m.ri + 1) cdi,
+             ph := .live m' (match c.st.items m.ri with
+                             | some r => .readRet m.ri r
+                             | none => .readFin m.ri),
+             res := .none }
+
+/-- `onDone`: size bookkeeping; a shutdown error returns without touching storage; otherwise
+    `itemDispatchingFinish` (one batch: set `di`, delete the item) and possibly the size backup -/
+def doDone (c : Cfg) (m : Mem) (i : Nat) (oc : Outcome) : Cfg :=
+  match m.outst.lookup i with
+  | none => { c with res := .doneUnknown }
+  | some r =>
+    let m1 := { m with outst := m.outst.filter (fun p => p.1 != i), size := m.size - c.k.sizeof r }
+    match oc with
+    | .shutdownErr => { c with ph := .live m1 .idle, res := .doneOk }
+    | .final =>
+      let cdi := swapRemove m.cdi i
+      { c with calls := c.calls + 1, finalised := r :: c.finalised,
+               st := c.st.finB cdi i,
+               ph := .live { m1 with cdi := cdi } (if backupDue c.k m.ri 0 then .backup else .idle),
+               res := .doneOk }
+
+/-- `Shutdown`: `backupQueueSize` (one `Set si` unless request-sized), `stopped = true` -/
+def doShutdown (c : Cfg) (m : Mem) : Cfg :=
+  { c with calls := if c.k.reqSized then c.calls else c.calls + 1,
+           st := if c.k.reqSized then c.st else c.st.setSi m.size,
+           ph := .live { m with stopped := true } .idle, res := .shutOk }
+
+/-- `initPersistentContiguousStorage`, first call: `Batch(get ri, get wi)` -/
+def doStart (c : Cfg) : Cfg :=
+  { c with calls := c.calls + 1,
+           ph := .live { ri := c.st.R, wi := c.st.W, size := c.st.W - c.st.R } .init1, res := .none }
+
+/-- `retrieveAndEnqueueNotDispatchedReqs`, first call: `Get di` -/
+def doGetDi (c : Cfg) (m : Mem) : Cfg :=
+  match c.st.di with
+  | [] => { c with calls := c.calls + 1, ph := .live m .idle }
+  | d :: ds => { c with calls := c.calls + 1, ph := .live m (.init3 (d :: ds)) }
+
+/-- one iteration of the recovery loop (repaired code): a single batch per dispatched index -/
+def doMove (c : Cfg) (m : Mem) (todo : List (Nat × Option Req)) : Cfg :=
+  match todo with
+  | [] => { c with ph := .live m .idle }
+  | (i, none) :: rest =>
+    { c with calls := c.calls + 1,
+             st := c.st.finB (rest.map Prod.fst) i,
+             ph := .live m (afterMove rest) }
+  | (i, some r) :: rest =>
+    let m' := { m with wi := m.wi + 1, size := m.size + c.k.sizeof r }
+    { c with calls := c.calls + 1,
+             st := c.st.moveB m.wi r i (rest.map Prod.fst),
+             ph := .live m' (if backupDue c.k (m.wi + 1) 5 then .movingBackup rest else afterMove rest) }
+
+def doTick (c : Cfg) (m : Mem) : Pc → Cfg
+  | .idle => c
+  | .backup => { c with calls := c.calls + 1, st := c.st.setSi m.size, ph := .live m .idle }
+  | .readRet i r =>
+    { c with ph := .live { m with outst := (i, r) :: m.outst } .idle, handed := r :: c.handed, res := .readItem i r }
+  | .readFin i =>
+    let cdi := swapRemove m.cdi i
+    { c with calls := c.calls + 1,
+             st := c.st.finB cdi i,
+             ph := .live { m with cdi := cdi } .readLoop }
+  | .readLoop => doRead c m
+  | .init1 =>
+    if m.size > 0 ∧ c.k.reqSized = false then
+      { c with calls := c.calls + 1, ph := .live { m with size := c.st.si.getD m.size } .init2 }
+    else doGetDi c m
+  | .init2 => doGetDi c m
+  | .init3 ds =>
+    { c with calls := c.calls + 1, ph := .live m (.moving (ds.map (fun i => (i, c.st.items i)))) }
+  | .moving todo => doMove c m todo
+  | .movingBackup todo =>
+    { c with calls := c.calls + 1, st := c.st.setSi m.size, ph := .live m (afterMove todo) }
+
+/-- the machine.  Operations start only in an idle live incarnation (the queue mutex serialises them),
+    `start` only when no incarnation is alive, `tick` continues a pending operation, `crash` always. -/
+def fire (c : Cfg) : Label → Cfg
+  | .crash => { c with ph := .dead }
+  | .start => match c.ph with
+    | .dead => doStart c
+    | _ => c
+  | .tick => match c.ph with
+    | .live m pc => doTick c m pc
+    | .dead => c
+  | .offer r => match c.ph with
+    | .live m .idle => doOffer c m r
+    | _ => c
+  | .read => match c.ph with
+    | .live m .idle => doRead c m
+    | _ => c
+  | .done i oc => match c.ph with
+    | .live m .idle => doDone c m i oc
+    | _ => c
+  | .shutdown => match c.ph with
+    | .live m .idle => doShutdown c m
+    | _ => c
+
+def init (k : Conf) : Cfg := { k := k }
+
+def run (k : Conf) (ls : List Label) : Cfg := ls.foldl fire (init k)
+
+def Cfg.idle (c : Cfg) : Bool :=
+  match c.ph with
+  | .live _ .idle => true
+  | _ => false
+
+def Cfg.alive (c : Cfg) : Bool :=
+  match c.ph with
+  | .live _ _ => true
+  | .dead => false
+
 end OtelVerif.C01
